@@ -293,11 +293,11 @@ Section BF.
   Qed.
 End BF.
 
-(** * Kruskal as implemented (finding C19-K1) *)
+(** * Kruskal before repair f6a1e05 (finding C19-K1, fixed) *)
 Definition g_k1 : graph := mkG [0; 1] [mkE 0 1 0 5; mkE 0 1 1 2].
 
-Theorem kruskal_model_refuted_l :
-  exists g, wf g /\ k_parallel_diffw g = true /\ ~ msf_spec g (kruskal_model g).
+Theorem kruskal_pre_refuted_l :
+  exists g, wf g /\ k_parallel_diffw g = true /\ ~ msf_spec g (kruskal_pre g).
 Proof.
   exists g_k1. split; [apply wfb_wf; vm_compute; reflexivity|]. split; [vm_compute; reflexivity|].
   intros [_ M].
